@@ -4,7 +4,7 @@ from pathlib import Path
 import histgen
 import vlib
 from vlib import Check
-from checks.exporter_common import run_histories, rng_for
+from checks.exporter_common import run_histories, run_interleaved, rng_for
 
 
 def histories(chk, tier):
@@ -33,7 +33,8 @@ def run(tier):
     chk.rule = ("one execution = one API history (random records over all optional-member subsets, boundary integers, "
                 "byte strings, repeated/distinct table values, RR lists; 1-3 parameter sets with random hints, tick rates, "
                 "block sizes; explicit block writes, rotations; three compression modes); every closed output is parsed by "
-                "TLC (Cbor/CdnsFormat) and its denotation compared with the Exporter model, as is the library reader's dump")
+                "TLC (Cbor/CdnsFormat) and its denotation compared with the Exporter model, as is the library reader's dump; "
+                "pairs of exporters alive at once and operated alternately on one thread, each validated as if alone")
     chk.assumptions = ["TLC + CommunityModules", "driver logging and JSON<->struct conversion (harness/records.h)",
                        "python3 zlib/lzma for compressed outputs",
                        "statistics passed together with an address event / malformed message that the hints drop are not "
@@ -49,7 +50,14 @@ def run(tier):
     m2 = run_histories(chk, hs2, {"C01"}, label="c01s", sample=False,
                        defs=("CDNS_VERIF_ENC_BUFFER=12", "CDNS_VERIF_DEC_BUFFER=5"))
     chk.extra["scaled_buffer_executions"] = m2["execs"]
-    chk.distinct = m["execs"] + m2["execs"]
+    # two exporters (and the readers of their outputs) alive at once and operated alternately on one thread: each behaves
+    # as if it were alone
+    rng3 = rng_for(chk, 102)
+    hs3 = [histgen.gen_history(rng3, nops=rng3.choice([10, 25, 40]), comp=["none", "none", "gz", "xz"][i % 4], sizes=[1, 2, 3, 10000])
+           for i in range(40 if tier == "quick" else 600)]
+    hs3 = [histgen.add_external_block_ops(rng3, h) if k % 3 == 0 else h for k, h in enumerate(hs3)]
+    m3 = run_interleaved(chk, hs3, {"C01"}, label="c01i")
+    chk.distinct = m["execs"] + m2["execs"] + m3["execs"]
     return chk.finish()
 
 
